@@ -24,6 +24,10 @@
 (*  empty   emptyQueue() = true (or a time-out with no DisableQueueNotify  *)
 (*          possibly alive during the call) implies every event whose      *)
 (*          enqueue ended before the call began is completely consumed.    *)
+(*          (The property quantifies over process / processOne /           *)
+(*          takeEvent / clearEvents: while a processIf / processUntil call  *)
+(*          of some thread overlaps the observation, events it holds to     *)
+(*          put back are in neither place, and nothing is demanded.)        *)
 (*  sorted  (runs with the OrderedQueueList policy, ORDERED=1) within one     *)
 (*          processing call the events are dispatched in non-decreasing    *)
 (*          order of the comparator's key (here uid % 10) - C13 under       *)
@@ -42,16 +46,17 @@ VARIABLES ev,        \* uid -> [v, eb (enqueue begun), ee (index of enqueue end 
           dqnB, dqnE, dofB, dofE,       \* counts of DisableQueueNotify ctor begun/ended, dtor begun/ended
           sawOk,     \* waiting thread -> the predicate could have been true at some moment of the wait
           dqnSeen,   \* waiting thread -> a DisableQueueNotify was possibly alive at some moment of the wait
+          selSeen,   \* observing thread (emptyQueue / wait) -> a processIf / processUntil call was in progress at some moment of the observation
           mayClear,  \* uids a clearEvents may have discarded
           last,      \* <<consumer, producer>> -> index of the last event consumed non-selectively
           sel,       \* threads that have run processIf / processUntil
           l
-vars == <<ev, call, dqnB, dqnE, dofB, dofE, sawOk, dqnSeen, mayClear, last, sel, l>>
+vars == <<ev, call, dqnB, dqnE, dofB, dofE, sawOk, dqnSeen, selSeen, mayClear, last, sel, l>>
 
 Idle == [op |-> "idle", at |-> 0, n |-> 0, to |-> FALSE, m |-> 0, k |-> 0]
 Init == /\ ev = <<>> /\ call = [t \in Threads |-> Idle]
         /\ dqnB = 0 /\ dqnE = 0 /\ dofB = 0 /\ dofE = 0
-        /\ sawOk = [t \in Threads |-> FALSE] /\ dqnSeen = [t \in Threads |-> FALSE]
+        /\ sawOk = [t \in Threads |-> FALSE] /\ dqnSeen = [t \in Threads |-> FALSE] /\ selSeen = [t \in Threads |-> FALSE]
         /\ mayClear = {} /\ last = <<>> /\ sel = {} /\ l = 1
 
 E == TraceLog[l]
@@ -71,6 +76,9 @@ Waiting == {t \in Threads : call[t].op = "wait"}
 Refresh(evn, calln, cE, dB, cB, dE) ==
    /\ sawOk' = [t \in Threads |-> IF calln[t].op = "wait" THEN (IF call[t].op = "wait" THEN sawOk[t] ELSE FALSE) \/ (PossiblyPending(evn, calln) /\ PossiblyEnabled(cE, dB)) ELSE FALSE]
    /\ dqnSeen' = [t \in Threads |-> IF calln[t].op = "wait" THEN (IF call[t].op = "wait" THEN dqnSeen[t] ELSE FALSE) \/ DqnPossiblyAlive(cB, dE) ELSE FALSE]
+   /\ selSeen' = [t \in Threads |-> IF calln[t].op \in {"wait", "empty"}
+                                      THEN (IF call[t].op = calln[t].op THEN selSeen[t] ELSE FALSE) \/ (\E u \in Threads : calln[u].op = "proc" /\ calln[u].m \in {3, 4})
+                                      ELSE FALSE]
 Same(evn, calln) == Refresh(evn, calln, dqnE, dofB, dqnB, dofE) /\ UNCHANGED <<dqnB, dqnE, dofB, dofE>>
 
 Begin(t, op) == call[t].op = "idle" /\ call' = [call EXCEPT ![t] = [op |-> op, at |-> l, n |-> 0, to |-> FALSE, m |-> IF op = "proc" THEN E.a ELSE 0, k |-> 0]]
@@ -134,7 +142,7 @@ AllConsumed(S) == LET open == {u \in S : ~(Consumed(u) \/ u \in mayClear)}
                   IN clearing \/ Cardinality(open) <= takes
 EvEmptyBegin == Is("eqb") /\ Begin(E.t, "empty") /\ Same(ev, call') /\ UNCHANGED <<ev, mayClear, last, sel>>
 EvEmptyEnd == /\ Is("eqe") /\ call[E.t].op = "empty"
-              /\ (E.r = 1 => AllConsumed(DoneBefore(call[E.t].at)))
+              /\ (E.r = 1 /\ ~selSeen[E.t] => AllConsumed(DoneBefore(call[E.t].at)))
               /\ call' = [call EXCEPT ![E.t] = Idle]
               /\ Same(ev, call') /\ UNCHANGED <<ev, mayClear, last, sel>>
 
@@ -145,7 +153,7 @@ EvTimeout == /\ Is("to") /\ call[E.t].op = "wait" /\ call' = [call EXCEPT ![E.t]
 EvWaitEnd == /\ Is("we") /\ call[E.t].op = "wait"
              /\ IF E.r = 1 THEN sawOk[E.t]
                 ELSE /\ call[E.t].to                                             \* false only after the time-out
-                     /\ (~dqnSeen[E.t] => AllConsumed(DoneBefore(call[E.t].at)))
+                     /\ (~dqnSeen[E.t] /\ ~selSeen[E.t] => AllConsumed(DoneBefore(call[E.t].at)))
              /\ call' = [call EXCEPT ![E.t] = Idle]
              /\ Same(ev, call') /\ UNCHANGED <<ev, mayClear, last, sel>>
 
@@ -164,13 +172,14 @@ EvFin == Is("fin") /\ call[E.t].op = "idle" /\ Same(ev, call) /\ UNCHANGED <<ev,
 \* ---- nobody can run: acceptable only if nobody is stuck on a mutex and no sleeping waiter should have been woken
 EvStuck == /\ Is("stuck") /\ E.a < 16                                       \* bits 4.. = threads blocked on a mutex: deadlock
            /\ ~(SurelyPending /\ ~DqnPossiblyAlive(dqnB, dofE))              \* lost wake-up (C07)
-           /\ UNCHANGED <<ev, call, dqnB, dqnE, dofB, dofE, sawOk, dqnSeen, mayClear, last, sel>>
+           /\ UNCHANGED <<ev, call, dqnB, dqnE, dofB, dofE, sawOk, dqnSeen, selSeen, mayClear, last, sel>>
 \* end of the execution: (unless abandoned after a legitimate stuck) everything was consumed and nothing is alive
 EvReset == /\ Is("rs")
            /\ (E.a = 0 => /\ \A u \in Uids : Consumed(u) \/ u \in mayClear
                           /\ E.b = 0)
            /\ ev' = <<>> /\ call' = [t \in Threads |-> Idle] /\ dqnB' = 0 /\ dqnE' = 0 /\ dofB' = 0 /\ dofE' = 0
-           /\ sawOk' = [t \in Threads |-> FALSE] /\ dqnSeen' = [t \in Threads |-> FALSE] /\ mayClear' = {} /\ last' = <<>> /\ sel' = {}
+           /\ sawOk' = [t \in Threads |-> FALSE] /\ dqnSeen' = [t \in Threads |-> FALSE] /\ selSeen' = [t \in Threads |-> FALSE]
+           /\ mayClear' = {} /\ last' = <<>> /\ sel' = {}
 
 Next == \/ EvEnqBegin \/ EvEnqEnd \/ EvProcBegin \/ EvEnter \/ EvRet \/ EvProcEnd
         \/ EvTakeBegin \/ EvTakeEnd \/ EvPeekBegin \/ EvPeekEnd \/ EvClearBegin \/ EvClearEnd
